@@ -19,21 +19,37 @@ func hangLimit() any { return sysx.HangLimit }
 
 // ---------------------------------------------------------------- oracle
 
-func (w *world) match(g *rrec, lastAny int, byTag map[uint64]*wrec, small map[byte][]*wrec, byHdr map[uint32]*wrec) *wrec {
+func (w *world) match(g *rrec, lastPer map[int]int, byTag map[uint64]*wrec, small map[byte][]*wrec, byHdr map[uint32]*wrec) *wrec {
 	if len(g.Payload) >= 8 {
 		tag := binary.BigEndian.Uint64(g.Payload)
 		if wr := byTag[tag]; wr != nil {
 			return wr
 		}
 	} else if len(g.Payload) >= 1 {
+		// payloads shorter than the tag carry a one-byte counter: the candidates are the written packets with that
+		// byte (256 short packets apart). Delivery is in order per (media, format), so the right one is the first
+		// candidate after the last packet matched for its (media, format); an exact repetition of that last packet
+		// is a duplicate of it.
 		cands := small[g.Payload[0]]
+		same := func(c *wrec) bool { return c.PT == g.PT && c.Seq == g.Seq && c.TS == g.TS && c.Marker == g.Marker }
 		for _, c := range cands {
-			if c.PT == g.PT && c.Seq == g.Seq {
+			if l, ok := lastPer[c.Tgt]; ok && l == c.Idx && same(c) {
+				return c
+			}
+		}
+		after := func(c *wrec) bool { l, ok := lastPer[c.Tgt]; return !ok || c.Idx > l }
+		for _, c := range cands {
+			if after(c) && same(c) {
 				return c
 			}
 		}
 		for _, c := range cands {
-			if c.Idx > lastAny {
+			if after(c) && c.PT == g.PT {
+				return c
+			}
+		}
+		for _, c := range cands {
+			if same(c) {
 				return c
 			}
 		}
@@ -81,10 +97,9 @@ func (w *world) judge() {
 		w.res.Received += len(got)
 		seen := map[int]int{}
 		lastPer := map[int]int{}
-		lastAny := -1
 		for n := range got {
 			g := &got[n]
-			wr := w.match(g, lastAny, byTag, small, byHdr)
+			wr := w.match(g, lastPer, byTag, small, byHdr)
 			if wr == nil {
 				w.fail(r, -1, "unknown-packet", "reader %d received packet %v (arrival #%d) that was never written: payload head % x", r.id, g, n, g.Payload[:min(len(g.Payload), 16)])
 				continue
@@ -131,9 +146,6 @@ func (w *world) judge() {
 			seen[wr.Idx]++
 			if l, ok := lastPer[wr.Tgt]; !ok || wr.Idx > l {
 				lastPer[wr.Tgt] = wr.Idx
-			}
-			if wr.Idx > lastAny {
-				lastAny = wr.Idx
 			}
 			inWindow := false
 			for _, iv := range r.ivs {
